@@ -1,17 +1,11 @@
 """C08 — multisequence partition / selection: lexicographic tie-break comparators,
 orientation of the priority queues and edge scans, stable middle decision, index
 guards, twin agreement of the two copies."""
-from engine import ir, dtable, match, cfg as cfgm
+from engine import ir, dtable, match, mustfact, linear, cfg as cfgm
 from engine.ir import kids, strip_casts, const_int, ref_of
 
 PART = "tlx::multisequence_partition"
 SEL = "tlx::multisequence_selection"
-# decisions that legitimately differ between the two copies: (reason)
-TWIN_EXCEPTIONS = {
-    "lmax-scan": "partition favours rear sequences on ties (!comp(x, max)), selection keeps the first maximum (comp(max, x)): both select a maximum",
-    "middle-decision": "partition must split ties by sequence index (stable partition); selection only reports a value and its offset",
-    "rank-precondition": "partition asserts its precondition and handles rank == N, selection throws",
-}
 
 
 def check_lexi(ck, tu):
@@ -107,9 +101,26 @@ def dominating_conds(fn, node):
     return out
 
 
+def writes_to(n):
+    """declaration id written by node n (assignment / compound assignment / ++ / --), and the index parts if an element"""
+    w = match.unop(n, ("++", "--")) or (match.binop(n, ("=", "+=", "-=", "*=", "/=")) if n["k"] in ("BinaryOperator", "CompoundAssignOperator", "CXXOperatorCallExpr") else None)
+    if not w:
+        return None, None
+    ip = match.index_parts(w[1])
+    return (ref_of(ip[0]) if ip else ref_of(w[1])), ip
+
+
 def check_index_guards(ck, fn, tag):
+    """INDEX-GUARD: every begin_seqs[X].first[E] is reached only over branch edges that establish the needed bound
+    (E < seqlen[X], or E' > 0 for E = E' - 1), as canonical linear inequalities, with no write to the index in between
+    (must-fact over the CFG: early `continue`, negated tests and || chains count like nested ifs).
+    GUARD-EXACT: one of those edges is exactly the bound - a stronger test skips a candidate that exists.
+    LEFT-BORDER-BOUND: a left border that is still zero is moved by K only under exactly K <= seqlen."""
     n_acc = 0
     bad = 0
+    g = cfgm.CFG(fn)
+    L = linear.Lin(fn, g)
+    left_arrays = set()
     for x in fn.nodes():
         sa = seq_access(x) if x["k"] in ("ArraySubscriptExpr", "CXXOperatorCallExpr") else None
         if not sa:
@@ -119,37 +130,245 @@ def check_index_guards(ck, fn, tag):
         Es = strip_casts(E)
         if const_int(Es) == 0:
             continue            # element 0 of a non-empty sequence (precondition)
-        conds = dominating_conds(fn, x)
-        okk = False
         sub = match.binop(Es, ("-",))
-        for c, pol in conds:
-            b = match.binop(c, ("<", ">", "<=", ">="))
-            if not b:
+        lower = bool(sub and const_int(sub[2]) == 1)
+        if lower and match.index_parts(sub[1]) and ref_of(match.index_parts(sub[1])[0]) is not None:
+            left_arrays.add(ref_of(match.index_parts(sub[1])[0]))
+        seqlen_x = None
+        for y in fn.nodes():
+            p_ = match.index_parts(y) if y["k"] in ("ArraySubscriptExpr", "CXXOperatorCallExpr") else None
+            if p_ and ir.ref_name(p_[0]) == "seqlen" and match.same_expr(p_[1], X):
+                seqlen_x = y
+                break
+        if lower:
+            need = L.req(Es, None, False, use=x) if False else linear.canon(*_ge0(L, Es, x))
+        else:
+            if seqlen_x is None:
+                ck.violation("INDEX-GUARD", fn.qname, "%s:%s" % (tag, dtable.describe(x)),
+                             "%s is read but seqlen[%s] is never tested" % (dtable.describe(x), dtable.describe(X)), fn.nloc(x))
+                bad += 1
                 continue
-            op, l, r = b
-            if not pol:
-                op = {"<": ">=", ">": "<=", "<=": ">", ">=": "<"}[op]
-            # E < seqlen[X]
-            def is_seqlen(e):
-                p = match.index_parts(e)
-                return bool(p and ir.ref_name(p[0]) == "seqlen" and match.same_expr(p[1], X))
-            if op == "<" and match.same_expr(l, Es) and is_seqlen(r):
-                okk = True
-            if op == ">" and match.same_expr(r, Es) and is_seqlen(l):
-                okk = True
-            # (E' - 1) with E' > 0
-            if sub and const_int(sub[2]) == 1 and op == ">" and match.same_expr(l, sub[1]) and (const_int(r) or 0) >= 0 and const_int(r) is not None:
-                okk = True
-            # (n + 1) <= seqlen[X] for element n
-            pl = match.binop(l, ("+",))
-            if op == "<=" and pl and match.same_expr(pl[1], Es) and const_int(pl[2]) == 1 and is_seqlen(r):
-                okk = True
-        if not okk:
+            need = L.req(seqlen_x, Es, True, use=x)
+        names = {y["ref"]["id"] for e_ in (E, X) for y in ir.walk(e_) if y["k"] == "DeclRefExpr"}
+
+        def effect(n, names=names, E=E):
+            d, ip = writes_to(n)
+            if d is None or d not in names:
+                return None
+            if ip and not any(match.same_expr(ip[1], q[1]) for y in ir.walk(E) for q in [match.index_parts(y)] if q and ref_of(q[0]) == d):
+                return None         # another element of the array
+            return "kill"
+        safe = mustfact.MustFact(fn, g, lambda c, t, need=need: linear.implies(L.atom(c, t), need), effect)
+        if safe.before(x) is not True:
             ck.violation("INDEX-GUARD", fn.qname, "%s:%s" % (tag, dtable.describe(x)),
-                         "%s is read without a dominating test that the index is inside the sequence (0 <= index < seqlen)" % dtable.describe(x), fn.nloc(x))
+                         "%s is read on a path without a test that the index is inside the sequence (needs %s >= 0)"
+                         % (dtable.describe(x), linear.show(need)), fn.nloc(x))
+            bad += 1
+            continue
+        exact = mustfact.MustFact(fn, g, lambda c, t, need=need: linear.same(L.atom(c, t), need), effect)
+        if exact.before(x) is not True:
+            ck.violation("GUARD-EXACT", fn.qname, "%s:%s" % (tag, dtable.describe(x)),
+                         "%s is only reached under a test that is stronger than `the element exists` (%s >= 0): an existing candidate is skipped"
+                         % (dtable.describe(x), linear.show(need)), fn.nloc(x))
             bad += 1
     if not bad:
-        ck.ok("INDEX-GUARD", tag, "%d element accesses each dominated by index < seqlen[...] (or index-1 with index > 0)" % n_acc)
+        ck.ok("INDEX-GUARD", tag, "%d element accesses, each reached only over edges that establish index < seqlen[...] (or index-1 with index > 0)" % n_acc)
+        ck.ok("GUARD-EXACT", tag, "for each of them one guarding edge is exactly the existence of the element (canonical linear form)")
+    # left borders moved while still zero
+    n_lb = 0
+    for z in fn.nodes():
+        if z["k"] != "CompoundAssignOperator" or z.get("op") != "+=":
+            continue
+        d, ip = writes_to(z)
+        if d not in left_arrays or not ip:
+            continue
+        pz = g.pos_deep(z)
+        earlier = [w for w in L.writes.get(d, []) if w is not z and g.pos_deep(w) is not None and g.reachable(g.pos_deep(w), pz)
+                   and not (pz is not None and g.reachable(pz, g.pos_deep(w)) and g.dominates(pz, g.pos_deep(w)))]
+        if any(not (match.binop(w, ("=",)) and const_int(match.binop(w, ("=",))[2]) == 0) for w in earlier):
+            continue            # not known to be zero here: nothing to decide
+        seqlen_x = None
+        for y in fn.nodes():
+            p_ = match.index_parts(y) if y["k"] in ("ArraySubscriptExpr", "CXXOperatorCallExpr") else None
+            if p_ and ir.ref_name(p_[0]) == "seqlen" and match.same_expr(p_[1], ip[1]):
+                seqlen_x = y
+                break
+        if seqlen_x is None:
+            raise dtable.Undecidable("%s: no seqlen[] test for the left border moved at line %s" % (fn.loc, z.get("l")))
+        K = kids(z)[1]
+        need = L.req(seqlen_x, K, False, use=z)
+        names = {y["ref"]["id"] for e_ in (K, ip[1]) for y in ir.walk(e_) if y["k"] == "DeclRefExpr"}
+
+        def effect2(n, names=names):
+            d2, ip2 = writes_to(n)
+            return "kill" if d2 is not None and d2 in names and n is not z and not ip2 else None
+        n_lb += 1
+        sf = mustfact.MustFact(fn, g, lambda c, t: linear.implies(L.atom(c, t), need), effect2)
+        ex = mustfact.MustFact(fn, g, lambda c, t: linear.same(L.atom(c, t), need), effect2)
+        if sf.before(z) is not True:
+            ck.violation("LEFT-BORDER-BOUND", fn.qname, "%s:%s" % (tag, dtable.describe(z)[:40]),
+                         "the left border is moved by %s without a test that the sequence is that long (needs %s >= 0): the border leaves the sequence"
+                         % (dtable.describe(K), linear.show(need)), fn.nloc(z))
+        elif ex.before(z) is not True:
+            ck.violation("LEFT-BORDER-BOUND", fn.qname, "%s:%s" % (tag, dtable.describe(z)[:40]),
+                         "the left border is moved by %s only under a test stronger than `the sequence is that long` (%s >= 0): a sequence of exactly "
+                         "that length keeps its border at zero" % (dtable.describe(K), linear.show(need)), fn.nloc(z))
+        else:
+            ck.ok("LEFT-BORDER-BOUND", "%s @%s" % (tag, fn.nloc(z)), "a zero left border moves by K exactly when K <= seqlen")
+    return n_lb
+
+
+def _ge0(L, e, use):
+    f = L.form(e, use)
+    return ({t: k for t, k in f[0].items() if k}, f[1])
+
+
+def resolve_elem(fn, e, depth=0):
+    """(X, E) if e denotes (the address of / a reference or pointer to) begin_seqs[X].first[E], through locals"""
+    e = strip_casts(e)
+    while e is not None and (e["k"] == "ParenExpr" or (e["k"] == "UnaryOperator" and e.get("op") in ("&", "*"))):
+        e = strip_casts(kids(e)[0])
+    if e is None or depth > 4:
+        return None
+    sa = seq_access(e) if e["k"] in ("ArraySubscriptExpr", "CXXOperatorCallExpr") else None
+    if sa:
+        return sa
+    d = ref_of(e)
+    if d is not None:
+        for v in fn.nodes():
+            if v["k"] == "VarDecl" and v.get("did") == d and kids(v) and kids(v)[0] is not None:
+                return resolve_elem(fn, kids(v)[0], depth + 1)
+    return None
+
+
+def check_edge_scans(ck, fn, tag):
+    """an edge scan keeps, in a pointer local V, the extreme of the elements at the border: V = &begin_seqs[i].first[E] in a
+    loop.  E of the form x - 1 is the left edge (maximum wanted), otherwise the right edge (minimum wanted).  The loop body
+    is explored as a decision table over {V is null, comp(candidate, *V), comp(*V, candidate), other tests}."""
+    scans = {}
+    for z in fn.nodes():
+        b = match.binop(z, ("=",)) if z["k"] == "BinaryOperator" else None
+        if not b:
+            continue
+        lhs = strip_casts(b[1])
+        if lhs["k"] != "DeclRefExpr" or "*" not in (lhs.get("ty") or ""):
+            continue
+        el = resolve_elem(fn, b[2])
+        if el is None:
+            continue
+        loops = [a_ for a_ in ancestors(fn, z) if a_["k"] in ("ForStmt", "WhileStmt")]
+        if not loops:
+            continue
+        scans.setdefault((lhs["ref"]["id"], loops[0]["id"]), dict(var=lhs["ref"], loop=loops[0], assigns=[], elems=[]))
+        scans[(lhs["ref"]["id"], loops[0]["id"])]["assigns"].append(z)
+        scans[(lhs["ref"]["id"], loops[0]["id"])]["elems"].append(el)
+    nbad = 0
+    for (V, _), sc in scans.items():
+        name = sc["var"]["name"]
+        forms = {bool(match.binop(strip_casts(E), ("-",)) and const_int(match.binop(strip_casts(E), ("-",))[2]) == 1) for X, E in sc["elems"]}
+        if len(forms) != 1:
+            raise dtable.Undecidable("%s: scan for %s takes candidates from both edges" % (fn.loc, name))
+        want_max = forms.pop()
+        body = match.loop_parts(sc["loop"])[3]
+
+        def atomize(n, run, V=V):
+            n0 = strip_casts(n)
+            pt = match.ptr_truth(n)
+            if pt is None and n0 is not n:
+                pt = match.ptr_truth(n0)
+            if pt is not None and ref_of(pt) == V:
+                return ("null", True)
+            if n0["k"] == "DeclRefExpr" and n0["ref"]["id"] == V:
+                return ("null", True)
+            bb = match.binop(n0, ("==", "!="))
+            if bb:
+                for l, r in ((bb[1], bb[2]), (bb[2], bb[1])):
+                    if ref_of(l) == V and strip_casts(r)["k"] in ("NullPtr", "CXXNullPtrLiteralExpr", "GNUNullExpr") or (ref_of(l) == V and const_int(r) == 0):
+                        return ("null", bb[0] == "!=")
+            fc = match.functor_call(n0)
+            if fc and len(fc[1]) == 2 and ref_of(fc[0]) is not None:
+                roles = []
+                for a_ in fc[1]:
+                    d_ = match.deref_of(a_)
+                    if d_ is not None and ref_of(d_) == V:
+                        roles.append("cur")
+                    elif resolve_elem(fn, a_) is not None:
+                        roles.append("x")
+                    else:
+                        roles.append("?")
+                if sorted(roles) == ["cur", "x"]:
+                    return ("lt:%s<%s" % tuple(roles), False)
+                if "cur" in roles:
+                    raise dtable.Undecidable("%s: comparison of %s with something that is not an edge element at line %s" % (fn.loc, name, n0.get("l")))
+            if n0["k"] in ("BinaryOperator", "CXXOperatorCallExpr", "UnaryOperator", "ParenExpr") and n0.get("op") in ("&&", "||", "!", None) \
+                    and n0["k"] != "CXXOperatorCallExpr":
+                return None
+            return ("other:" + dtable.describe(n0), False)
+        leaves = dtable.explore(body, atomize, fn)
+        asg_ids = {z["id"] for z in sc["assigns"]}
+
+        def assigned(lf):
+            return any(ev[0] == "expr" and any(y["id"] in asg_ids for y in ir.walk(ev[1])) for ev in lf["events"])
+        atoms = dtable.atoms_of(leaves)
+        others = [a_ for a_ in atoms if a_.startswith("other:")]
+        LX, LC = "lt:x<cur", "lt:cur<x"
+        problem = None
+        # null dereference: a leaf that evaluated a comparison against *V while V is null
+        for lf in leaves:
+            if lf["val"].get("null") is True and any(k.startswith("lt:") for k in lf["val"]):
+                problem = "compares a candidate with *%s while %s is still null" % (name, name)
+        rows = list(dtable.table(leaves, consistent=lambda v: not (v.get(LX) and v.get(LC)), atoms=atoms))
+        import itertools
+        for ov in itertools.product((False, True), repeat=len(others)):
+            sel = [(v, lf) for v, lf in rows if all(v[o] == t for o, t in zip(others, ov))]
+            considered = any(assigned(lf) for v, lf in sel)
+            if not considered or problem:
+                continue
+            for v, lf in sel:
+                A = assigned(lf)
+                if v.get("null"):
+                    if not A:
+                        problem = "does not take the first candidate while %s is null" % name
+                    continue
+                x_lt_cur, cur_lt_x = v.get(LX, None), v.get(LC, None)
+                if LX not in atoms and LC not in atoms:
+                    problem = "replaces %s without comparing" % name if A else problem
+                    continue
+                # with only one direction compared the other outcome is unknown: quantify over it
+                strictly_better = cur_lt_x if want_max else x_lt_cur
+                strictly_worse = x_lt_cur if want_max else cur_lt_x
+                if strictly_worse is True and A:
+                    problem = "replaces %s by a strictly %s element (%s)" % (name, "smaller" if want_max else "larger", dtable.fmt_val(v))
+                if strictly_better is True and not A:
+                    problem = "keeps %s although the candidate is strictly %s (%s)" % (name, "larger" if want_max else "smaller", dtable.fmt_val(v))
+            # one-directional comparisons: comp(x, cur) only tells x < cur; for a maximum scan `!comp(x, cur)` replaces on ties too (allowed)
+        if problem is None and LX in atoms and LC not in atoms:
+            # only comp(x, cur) is asked: for a max scan replace iff !(x < cur); for a min scan replace iff x < cur
+            for v, lf in rows:
+                if v.get("null") or not any(assigned(l2) for v2, l2 in rows if all(v2[o] == v[o] for o in others)):
+                    continue
+                if assigned(lf) != ((not v[LX]) if want_max else v[LX]):
+                    problem = "keeps the wrong extreme (%s)" % dtable.fmt_val(v)
+        if problem is None and LC in atoms and LX not in atoms:
+            for v, lf in rows:
+                if v.get("null") or not any(assigned(l2) for v2, l2 in rows if all(v2[o] == v[o] for o in others)):
+                    continue
+                if assigned(lf) != (v[LC] if want_max else (not v[LC])):
+                    problem = "keeps the wrong extreme (%s)" % dtable.fmt_val(v)
+        if problem:
+            ck.violation("EDGE-TIEBREAK", fn.qname, "%s:%s" % (tag, name), "the scan for %s (%s of the %s edge) %s"
+                         % (name, "maximum" if want_max else "minimum", "left" if want_max else "right", problem), fn.nloc(sc["assigns"][0]))
+            nbad += 1
+    return len(scans), nbad
+
+
+def ancestors(fn, node):
+    out = []
+    par = fn.parent(node)
+    while par is not None:
+        out.append(par)
+        par = fn.parent(par)
+    return out
 
 
 def check_pq_and_edges(ck, fn, tag, is_partition):
@@ -197,43 +416,11 @@ def check_pq_and_edges(ck, fn, tag, is_partition):
     if not bad:
         ck.ok("PQ-ORIENT", tag, "skew > 0: min-first queue over b[]; skew < 0: max-first queue over a[] - 1")
     # edge scans: max of the left edge, min of the right edge
-    bad = 0
-    n_scans = 0
-    for x in fn.nodes():
-        if x["k"] != "IfStmt":
-            continue
-        c = kids(x)[0]
-        u = match.unop(c, ("!",))
-        inner = u[1] if u else c
-        fc = match.functor_call(inner)
-        if not fc or ref_of(fc[0]) is None or ir.ref_name(fc[0]) != "comp" or len(fc[1]) != 2:
-            continue
-        asg = [match.binop(y, ("=",)) for y in ir.walk(kids(x)[1]) if match.binop(y, ("=",)) and ir.ref_name(match.binop(y, ("=",))[1]) in ("lmax", "maxleft", "minright")]
-        if not asg:
-            continue
-        n_scans += 1
-        var = ir.ref_name(asg[0][1])
-        roles = []
-        for a in fc[1]:
-            d = match.deref_of(a)
-            roles.append("cur" if d is not None and ir.ref_name(d) == var else "x")
-        neg = bool(u)
-        # replaced when condition true
-        if var in ("lmax", "maxleft"):
-            # must replace when cur < x, must not when x < cur
-            replaces_when_cur_lt_x = (roles == ["cur", "x"] and not neg) or (roles == ["x", "cur"] and neg)
-            replaces_when_x_lt_cur = (roles == ["x", "cur"] and not neg) or (roles == ["cur", "x"] and neg)
-            okk = replaces_when_cur_lt_x and not replaces_when_x_lt_cur
-        else:
-            replaces_when_x_lt_cur = (roles == ["x", "cur"] and not neg) or (roles == ["cur", "x"] and neg)
-            replaces_when_cur_lt_x = (roles == ["cur", "x"] and not neg) or (roles == ["x", "cur"] and neg)
-            okk = replaces_when_x_lt_cur and not replaces_when_cur_lt_x
-        if not okk:
-            ck.violation("EDGE-TIEBREAK", fn.qname, "%s:%s" % (tag, var), "the scan for %s keeps the wrong extreme (%s)" % (var, dtable.describe(c)), fn.nloc(c))
-            bad += 1
+    n_scans, bad = check_edge_scans(ck, fn, tag)
     ck.require(n_scans >= 3, "%s: edge scans not found" % fn.loc)
     if not bad:
-        ck.ok("EDGE-TIEBREAK", tag, "%d edge scans keep the maximum of the left edge / minimum of the right edge" % n_scans)
+        ck.ok("EDGE-TIEBREAK", tag, "%d edge scans keep the maximum of the left edge / minimum of the right edge, decided on the "
+              "truth table of each scan body (first candidate taken, replaced iff strictly better in the kept direction, ties free)" % n_scans)
     # middle decision (partition only): lexicographic on (element, sequence)
     if is_partition:
         mids = [x for x in fn.nodes() if x["k"] == "IfStmt" and any(ir.ref_name(y) == "middle" for y in ir.walk(kids(x)[0]) if y["k"] == "DeclRefExpr")]
@@ -261,74 +448,25 @@ def check_pq_and_edges(ck, fn, tag, is_partition):
             if pa and pb:
                 sa = seq_access(strip_casts(pa[0]))
                 d = match.deref_of(pb[0])
-                okk = bool(sa and ir.ref_name(sa[1]) == "middle" and match.same_expr(sa[0], pa[1]) and d is not None and ir.ref_name(d) == "lmax"
-                           and ir.ref_name(pb[1]) == "lmax_seq")
-                # lmax_seq is set wherever lmax is set
-                sets_l = [y for y in fn.nodes() if match.binop(y, ("=",)) and ir.ref_name(match.binop(y, ("=",))[1]) == "lmax"]
-                sets_s = [y for y in fn.nodes() if match.binop(y, ("=",)) and ir.ref_name(match.binop(y, ("=",))[1]) == "lmax_seq"]
-                okk = okk and len(sets_l) == len(sets_s) and len(sets_l) >= 2
+                okk = bool(sa and ir.ref_name(sa[1]) == "middle" and match.same_expr(sa[0], pa[1]) and d is not None and ref_of(d) is not None
+                           and "*" in (strip_casts(d).get("ty") or "") and ref_of(pb[1]) is not None)
+                # lmax_seq is set wherever lmax is set: in the same basic block, to the sequence index of the element taken
+                g_ = cfgm.CFG(fn)
+                lvar, svar = ref_of(d), ref_of(pb[1])
+                sets_l = [y for y in fn.nodes() if y["k"] == "BinaryOperator" and match.binop(y, ("=",)) and ref_of(match.binop(y, ("=",))[1]) == lvar]
+                sets_s = [y for y in fn.nodes() if y["k"] == "BinaryOperator" and match.binop(y, ("=",)) and ref_of(match.binop(y, ("=",))[1]) == svar]
+                paired = bool(sets_l)
+                for y in sets_l:
+                    el = resolve_elem(fn, match.binop(y, ("=",))[2])
+                    mates = [z for z in sets_s if g_.pos_deep(z) is not None and g_.pos_deep(y) is not None and g_.pos_deep(z)[0] == g_.pos_deep(y)[0]]
+                    if el is None or not mates or not any(match.same_expr(match.binop(z, ("=",))[2], el[0]) for z in mates):
+                        paired = False
+                okk = okk and paired
         if okk:
             ck.ok("MIDDLE-LEXI", tag, "an element goes left iff (element, sequence) < (left maximum, its sequence) lexicographically")
         else:
             ck.violation("MIDDLE-LEXI", fn.qname, tag, "the refinement compares the probe element with the left maximum by key only: equal elements are split "
                          "without regard to their sequence index (unstable partition)", fn.nloc(c))
-
-
-def decision_list(fn):
-    """normalised list of (kind, text) of all branch / loop conditions of the function, with classification of the known exceptions"""
-    out = []
-    for x in fn.nodes():
-        if x["k"] in ("IfStmt", "WhileStmt", "ForStmt"):
-            c = kids(x)[0] if x["k"] != "ForStmt" else kids(x)[1]
-            if c is None:
-                continue
-            t = norm(c)
-            names = set(ir.ref_name(y) for y in ir.walk(c) if y["k"] == "DeclRefExpr")
-            cls = None
-            if "lmax" in names and "middle" in names:
-                cls = "middle-decision"
-            elif ("lmax" in names or "maxleft" in names) and "comp" in names:
-                cls = "lmax-scan"
-            elif "rank" in names and ("N" in names) and x["k"] == "IfStmt":
-                cls = "rank-precondition"
-            out.append((cls, x["k"], t))
-    return out
-
-
-def norm(e):
-    """printable form with a > b rewritten as b < a and value_type spelling differences removed"""
-    e = strip_casts(e)
-    b = match.binop(e, (">", ">="))
-    if b and e["k"] == "BinaryOperator":
-        return "(%s %s %s)" % (norm(b[2]), "<" if b[0] == ">" else "<=", norm(b[1]))
-    b = match.binop(e)
-    if b and e["k"] == "BinaryOperator":
-        return "(%s %s %s)" % (norm(b[1]), b[0], norm(b[2]))
-    if e["k"] == "UnaryOperator":
-        return e["op"] + norm(kids(e)[0])
-    return dtable.describe(e)
-
-
-def check_twins(ck, fp, fs):
-    dp, ds = decision_list(fp), decision_list(fs)
-    kp = [d for d in dp if d[0] is None]
-    ks = [d for d in ds if d[0] is None]
-    import collections
-    cp, cs = set((k, t) for _, k, t in kp), set((k, t) for _, k, t in ks)
-    # compared as sets of distinct decisions (both copies repeat loop headers a different number of times)
-    only_p = cp - cs
-    only_s = cs - cp
-    # decisions of selection's epilogue (offset computation) are allowed extras
-    only_s = set(d for d in only_s if not ("minright" in d[1] or "lb" in d[1] or "offset" in d[1] or "m == 0" in d[1]))
-    if only_p or only_s:
-        a = next(iter(only_p)) if only_p else None
-        b = next(iter(only_s)) if only_s else None
-        ck.violation("TWIN-AGREE", SEL if b else PART, "partition-vs-selection:%s" % ((a or b)[1][:60]).replace(" ", ""),
-                     "multisequence_partition and multisequence_selection are copies of one refinement but disagree: partition has %s, selection has %s"
-                     % (a[1] if a else "-", b[1] if b else "-"), "tlx/algorithm/multisequence_selection.hpp")
-    else:
-        ck.ok("TWIN-AGREE", "partition vs selection", "%d shared decisions identical; %d documented exceptions (%s)"
-              % (len(cp), len([d for d in dp if d[0]]), ", ".join(sorted(set(d[0] for d in dp if d[0])))))
 
 
 from rules.parcommon import check_comp_threaded  # noqa: E402
@@ -369,9 +507,11 @@ def check_partition_in(ck, tu):
         check_index_guards(ck, fp, tag)
         check_pq_and_edges(ck, fp, tag, True)
         check_signed_tests(ck, fp, tag)
-        twins = [f for f in fss if f.targs[2] == fp.targs[1]]
-        if twins:
-            check_twins(ck, fp, twins[0])
+        for fs in [f for f in fss if f.targs[2] == fp.targs[1]][:1]:
+            stag = "selection<%s>" % fs.targs[2]
+            check_index_guards(ck, fs, stag)
+            check_pq_and_edges(ck, fs, stag, False)
+            check_signed_tests(ck, fs, stag)
         n += 1
     return n
 
@@ -382,8 +522,8 @@ def run(ck):
         "tie-break comparators are the strict lexicographic (value, sequence index) order and its reverse (decision tables); the skew-correction "
         "queues have the right orientation and source; the edge scans keep maximum / minimum; the partition's refinement decision compares "
         "(element, sequence) pairs (found and fixed: it compared keys only, so runs of equal elements were split against the sequence order); every "
-        "element access is dominated by an index < seqlen test; the two copies of the algorithm (partition / selection) agree on every decision "
-        "except three documented ones; every standard ordering algorithm called inside receives the caller's comparator (COMP-THREADED); locals whose "
+        "element access is reached only over branch edges that establish index < seqlen (or index - 1 with index > 0), one of them being exactly "
+        "that bound, so no existing candidate is skipped; a left border that is still zero moves by K exactly when K <= seqlen; every standard ordering algorithm called inside receives the caller's comparator (COMP-THREADED); locals whose "
         "sign is tested are signed in every instantiation, including an unsigned rank type (SIGN-TEST-SIGNED).")
     types = ["int"] if ck.tier == "quick" else ["int", "std::string"]
     for t in types:
@@ -402,13 +542,13 @@ def run(ck):
                 check_pq_and_edges(ck, fn, tag, isp)
                 check_comp_threaded(ck, fn, tag)
                 check_signed_tests(ck, fn, tag)
-            check_twins(ck, fp, fs)
     m = len(types)
     ck.floor("LEXI-TABLE", 4 * m)
     ck.floor("INDEX-GUARD", 4 * m)
     ck.floor("PQ-ORIENT", 4 * m)
     ck.floor("EDGE-TIEBREAK", 4 * m)
     ck.floor("MIDDLE-LEXI", 2 * m)
-    ck.floor("TWIN-AGREE", 2 * m)
+    ck.floor("GUARD-EXACT", 4 * m)
+    ck.floor("LEFT-BORDER-BOUND", 4 * m)
     ck.floor("COMP-THREADED", 4 * m)
     ck.floor("SIGN-TEST-SIGNED", 2 * m)
